@@ -129,6 +129,10 @@ fn main() {
             let mut t = exec::TaskSpec::compile(0, "test.rssl", target);
             t.buffer_address = target == exec::Target::Vk;
             t.no_pipeline = args.iter().any(|a| a == "--no-pipeline");
+            t.pipeline = args
+                .iter()
+                .find_map(|a| a.strip_prefix("--pipeline=").map(|s| s.to_string()));
+            t.validate_layout = args.iter().any(|a| a == "--validate-layout");
             for a in args.iter().skip(4) {
                 if let Some((n, v)) = a.split_once('=') {
                     t.defines.push((n.to_string(), v.to_string()));
